@@ -273,9 +273,9 @@ class Persona(object):
         if b == 'email_address':
             return 'taxpayer@example.org'
         if b == 'home_address':
-            return '12 Main Street'
+            return r.choice(['12 Main Street', '12 Main St #4', '7 Elm Rd ; rear'])
         if b == 'apartment_no':
-            return r.choice(['', '4B'])
+            return r.choice(['', '4B', '#4'])
         if b == 'city':
             return 'Durham'
         if b == 'state':
